@@ -59,7 +59,13 @@ def clean_desc_ops(rng):
     if u == 1:
         ops += [K(5, rng.choice([1, 2, 3, 8, 9, 0x0C, 0x0E, 0x0F])), K(6, L.g_bytes(rng, rng.choice([1, 4, 8, 20])))]
     elif u == 2:
-        ops += [K(5, 13), K(17, [[rng.choice([1, 8, 9, 0x0E]), L.g_bytes(rng, rng.choice([0, 1, 3, 8]))] for _ in range(rng.randrange(4))])]
+        mid = [[rng.choice([1, 8, 9, 0x0E]), L.g_bytes(rng, rng.choice([0, 1, 3, 8]))] for _ in range(rng.randrange(4))]
+        ops += [K(5, 13), K(17, mid)]
+        if mid and rng.random() < 0.5:      # MID()[j].SetUPID / SetUPIDType on an element (length follows since 0cd2c00)
+            j = rng.randrange(len(mid))
+            ops.append(K(20, j, L.g_bytes(rng, rng.choice([0, 1, 2, 5, 9]))))
+            if rng.random() < 0.3:
+                ops.append(K(21, j, rng.choice([1, 8, 9, 0x0E])))
     elif u == 3:
         ops += [K(6, L.g_bytes(rng, rng.randrange(1, 6)))]      # UPID with type 0 (not used) but bytes present
     ty = rng.choice(L.SEG_TYPES + [0x34, 0x36])
@@ -82,7 +88,7 @@ def clean_history(rng):
         ops.append(K(5, [2, cops]))
     elif rng.random() < 0.5:
         ops.append(K(5, [0, []]))
-    adj = L.g_pts(rng) if (k != 0 and rng.random() < 0.8) else 0   # splice_null: the decoder leaves PTS() at 0
+    adj = L.g_pts(rng) if rng.random() < 0.8 else 0   # splice_null: PTS() is the adjustment itself (0fcfd24)
     ops.append(K(1, (pts + adj) % L.T33))
     if rng.random() < 0.8:
         ops.append(K(0, rng.choice([0, 1, 0xFFF, 0xABC, rng.randrange(4096)])))
@@ -196,7 +202,7 @@ def script_of(s):
                 cops += [K(5, 1), K(6, brk[0][1]), K(7, brk[0][0])]
             cops += [K(8, up), K(9, an), K(10, ae)]
         ops.append(K(5, [2, cops]))
-    epts = 0 if cmd[0] == 0 else (pts_time + s[8]) % L.T33
+    epts = (pts_time + s[8]) % L.T33   # splice_null: pts_time 0, PTS() = pts_adjustment
     ops += [K(1, epts), K(0, s[10])]
     ds = []
     for d in s[13]:
@@ -227,7 +233,7 @@ def api_buildable(s):
     c = s[12]
     if c[0] == 2 and c[2] and c[2][0][1][0] in (2, 3) and len(c[2][0][1][1]) > 0:
         return False
-    return all(d[0] == 0 for d in s[13]) and s[5] == 0 and s[7] == 0 and s[9] == 0 and not has_untimed(s)
+    return all(d[0] == 0 for d in s[13]) and s[5] == 0 and s[7] == 0 and s[9] == 0
 
 
 def has_untimed(s):
@@ -252,16 +258,20 @@ def gen(rng, tier):
     for s, b in zip(sigs, data):
         line = "scte.reencode " + hx(b)
         _logical[line] = s
-        kind = "reencode-canonical-untimed-component" if has_untimed(s) else "reencode-canonical"
+        # untimed components (0x7F since ce48cf3) and splice_null with pts_adjustment (kept since 0fcfd24) are ordinary
+        # canonical sections; they get their own histogram key only
+        kind = "reencode-canonical"
+        if has_untimed(s):
+            kind = "reencode-canonical-untimed-component"
+        elif s[12][0] == 0 and s[8] != 0:
+            kind = "reencode-canonical-null-adjustment"
         out.append(Case(line, kind=kind, theorem="C09_encode_decode_canonical"))
     # (a'') arbitrary supported sections (interleaved descriptors, stuffing, legacy command length, any sap_type):
     # re-encoding gives the canonical form of C09_reencode_normalizes
     anys = []
     for _ in range(250 * mult):
         sg = L.g_signal(rng, pf=rng.choice([0, 2]))
-        if sg[12][0] == 0:
-            sg[8] = 0
-        if L.fits(sg) and not has_untimed(sg):
+        if L.fits(sg):
             anys.append(sg)
     for sg, b in zip(anys, L.serialise(anys)):
         line = "scte.reencode " + hx(b)
@@ -347,10 +357,6 @@ def oracle(c, real, model):
                 want = L.py_ser(sg)[1 + len(sg[0]):]
                 if r[1][0] != want:
                     return "the setter history of a canonical section does not encode to that section"
-        elif c.kind == "known-mid-stale":
-            r = parse_val(real)
-            if r[0] == 0 and r[1][4][0] != 0:
-                return "the encoding after MID()[j].SetUPID is not decodable (stale upidLen)"
         elif c.kind == "clean-history":
             r = parse_val(real)
             if r[0] != 0:
@@ -375,9 +381,6 @@ def case_of_line(line, kind):
 
 
 def known_match(entry, c, real, model):
-    sig = entry.get("signature", "")
-    if sig == "untimed-component-0x7E":
-        return c.kind == "reencode-canonical-untimed-component"
     return c.line in entry.get("lines", [])
 
 
